@@ -132,7 +132,7 @@ def close(a, b, scale, rel=1e-9, abs_=0.0):
         return False
     if a.size == 0:
         return True
-    tol = rel * scale + abs_
+    tol = rel * scale + abs_ + 1e-300      # underflow threshold of binary64: subnormal results carry no relative accuracy
     fa, fb = np.isfinite(a), np.isfinite(b)
     if not (np.all(fa) and np.all(fb)):
         if not np.array_equal(fa, fb):
